@@ -1,5 +1,11 @@
 package protocol
 
-import "github.com/twmb/franz-go/pkg/kmsg"
+import (
+	"io"
+
+	"github.com/twmb/franz-go/pkg/kmsg"
+)
 
 func kmsgRequestForKey(k int16) kmsg.Request { return kmsg.RequestForKey(k) }
+
+func vsymEOF() error { return io.EOF }
